@@ -9,7 +9,7 @@ CHECKS = {
  'C03': dict(technique='runtime contract monitor (inline assertions on every call of an exhaustive/sampled API sweep)',
              text='Every exported function is executed over its full discrete argument space (sampled where the product exceeds the budget) with an inline monitor asserting the error contract on each call, with and without an error slot, in both data configurations; held = no contract violation on the calls listed in the evidence.',
              note='Trusted: gcc/glibc, the monitor harness/mon_sweep*.c and the result classes of xv/sigtab.py; continuous arguments are sampled (table ends, edges +/-1e-9, found by bisection).', ref='2 C03'),
- 'C04': dict(technique='compiler sanitizers (ASan+UBSan+LSan) and allocation-conservation monitor over API sweep, call histories and fuzzed inputs',
+ 'C04': dict(technique='compiler sanitizers (ASan+UBSan+LSan) and allocation-conservation monitor over API sweep, call histories, fuzzed inputs and allocation failpoints',
              text='The same sweep plus random allocating call histories run on an ASan+UBSan build with the allocation balance read around every call; any sanitizer report, crash or balance that grows on 3 of 3 repetitions is a violation. Held = no report on the executions counted in the evidence, not memory safety.',
              note='Red-zone tools miss non-adjacent overflows; zero-length libc calls with NULL (nonnull-attribute) are not flagged.', ref='2 C04'),
 }
@@ -43,7 +43,7 @@ CHECKS['C15'] = dict(technique='exhaustive catalogue cross-checker through the p
 CHECKS['C02'] = dict(technique='offline spline checker over recorded API calls vs independently parsed knots (reference interpolant with forward-error bound)',
              text='Every knot and every interval of every shipped table (photo/Rayleigh/Compton/energy cross sections, form factor, scattering function, f\', f\'\', total and sub-shell Compton profiles, regenerated Kissel sub-shell tables incl. the clamped log-log extension) is probed; values must equal the long-double cubic-spline reference within its forward error bound, and arguments straddling both table ends by 1e-12..1e-3 must fail outside the documented tolerance band.',
              note='Trusted: refdata parsers, numpy longdouble reference; duplicated abscissae and the one non-monotone table step are handled as described in DESIGN.md.', ref='2 C02')
-CHECKS['C18'] = dict(technique='differential runtime monitor (C++ wrapper vs wrapped C function) under ASan/UBSan with allocation-conservation monitor',
+CHECKS['C18'] = dict(technique='differential runtime monitor (C++ wrapper vs wrapped C function) under ASan/UBSan with allocation-conservation monitor and allocation failpoints',
              text='Each C function with a callable xrlpp wrapper (found by compile probes) is called with an error slot and through the wrapper in a try block over seeded samples of the argument space incl. every failing class; values/objects must agree bit for bit, exception type and what() must match the C error, neither path may leak (allocation balance, LSan), and wrapper objects are used after the C originals are released.',
              note='Trusted: g++/libstdc++, harness/cppmon.cpp; NULL strings cannot be expressed through std::string and are skipped.', ref='2 C18')
 CHECKS['C05'] = dict(technique='offline identity checker over recorded API calls (both sides of each identity are library outputs)',
